@@ -9,7 +9,13 @@
     previous observation (for the aperture balancer: its aperture);
   * every node id created so far (heap and off-heap part of the previous observation);
   * per dispatch, the node it went to and whether it has completed (results `node id _ d` open dispatch
-    `d`, operation `put d` completes it): the number of requests outstanding per member;
+    `d`, operation `put d` completes it): the number of requests outstanding per member.  A request that
+    waited for the balancer's open result and whose deadline passed meanwhile (the history contains its
+    `expire`: the timeout sink has handed its caller the TimeoutError) has completed before the open result
+    did; should it be dispatched all the same, the dispatch is that of a completed request and is entered
+    as completed — it is never outstanding;
+  * the requests waiting for the open result, rebuilt as C12's gate clauses rebuild them (`gateArrive`,
+    `gateNext`, Adapter/LB.lean);
   * the channel state of every node: Idle (1) when created, afterwards whatever the `chan` operations set.
 -/
 import ScalesModel.Adapter.LB
@@ -22,6 +28,9 @@ structure A3 where
   reqs : List (Nat × Bool) := []
   /-- channel state changes, newest first -/
   chans : List (Nat × Nat) := []
+  /-- the requests waiting for the open result, oldest first (`none` no deadline event, `some b` a deadline
+      event, `b`: the deadline has passed) -/
+  q : List (Option Bool) := []
   deriving Repr
 
 def A3.chanOf (a : A3) (id : Nat) : Nat :=
@@ -72,6 +81,23 @@ def c03Step (a : A3) (idx : Nat) (op : Op) (o : Obs) : Verdict :=
 def newReqs (rs : List ResV) : List (Nat × Bool) :=
   rs.filterMap (fun r => match r with | .node id _ _ => some (id, false) | _ => none)
 
+/-- the dispatches opened by `rs`, what became of the waiting requests `q` (oldest first, paired in order)
+    when the open result completed.  A request whose deadline had passed while it waited (`some true`) has
+    completed — by timeout — before it was dispatched: its dispatch is entered as completed. -/
+def lateReqs : List (Option Bool) → List ResV → List (Nat × Bool)
+  | e :: q, r :: rs =>
+    (match r with
+     | .node id _ _ => [(id, !live e)]
+     | _ => []) ++ lateReqs q rs
+  | _, rs => newReqs rs
+
+/-- the dispatches opened by the results of observation `o`; `q` the requests waiting for the open result
+    once the operation's own request has arrived.  The observation that reports nothing waiting any more is
+    the one in which the open result completed (as in `gateAt`): its results, in order, are what became of
+    the waiting requests. -/
+def newReqsQ (q : List (Option Bool)) (o : Obs) : List (Nat × Bool) :=
+  if o.queued == 0 && !q.isEmpty then lateReqs q o.flushed else newReqs o.res
+
 def reqsPut (reqs : List (Nat × Bool)) : Op → List (Nat × Bool)
   | .put r _ _ =>
     (match reqs[r]? with
@@ -86,8 +112,9 @@ def chansAfter (a : A3) : Op → List (Nat × Nat)
 def A3.after (a : A3) (op : Op) (o : Obs) : A3 :=
   { heap := o.heap.map (·.id)
     known := o.heap.map (·.id) ++ o.off.map (·.id)
-    reqs := reqsPut a.reqs op ++ newReqs o.res
-    chans := chansAfter a op }
+    reqs := reqsPut a.reqs op ++ newReqsQ (gateArrive a.q op o) o
+    chans := chansAfter a op
+    q := gateNext (gateArrive a.q op o) o }
 
 def specC03AGo (a : A3) (idx : Nat) : List (Op × Obs) → Verdict
   | [] => .ok
@@ -99,7 +126,11 @@ def specC03A (_ : Cfg) (h : List (Op × Obs)) : Verdict := specC03AGo {} 0 h
 
   After every operation: the load the balancer attributes to a node — its distance from Idle, or from 0
   while it is marked down — is the number of requests dispatched to it that have not completed, and the
-  load is never below Idle; a node the balancer is using has not been closed; a node that has left the
+  load is never below Idle.  "However they complete (reply, error, timeout, …)": a request that timed out
+  while it waited for the balancer's open result has completed; if the balancer dispatches it afterwards
+  it is not outstanding (`newReqsQ`), so the member's load must not include it — the clause is named
+  `load-booked-for-completed-request` when the surplus is exactly the number of such dispatches of the
+  observation, `load-not-conserved` otherwise; a node the balancer is using has not been closed; a node that has left the
   heap (server-set leave or aperture contraction) has been closed exactly once if it has drained or was
   marked down when it left, and not at all while requests are outstanding on it. -/
 
@@ -110,27 +141,39 @@ def c04View (reqs : List (Nat × Bool)) (inHeap : Bool) (v : NV) : Bool :=
     (if inHeap then v.closed == 0
      else v.closed == (if outCnt reqs v.id = 0 ∨ v.load ≥ 0 then 1 else 0))
 
-def c04AAt (reqs : List (Nat × Bool)) (idx : Nat) (o : Obs) : Verdict :=
+/-- the name of the failed load clause for node `v`; `late`: the nodes that were handed a request that had
+    already completed, in this observation (one entry per such dispatch) -/
+def loadClause (late : List Nat) (reqs : List (Nat × Bool)) (v : NV) : String :=
+  if late.contains v.id && decide (relLoadNV v = (outCnt reqs v.id : Int) + (late.count v.id : Nat)) then
+    "load-booked-for-completed-request"
+  else "load-not-conserved"
+
+def c04AAt (late : List Nat) (reqs : List (Nat × Bool)) (idx : Nat) (o : Obs) : Verdict :=
   match o.heap.find? (fun v => !c04View reqs true v) with
   | some v =>
     if decide (relLoadNV v = (outCnt reqs v.id : Int)) && decide (v.load ≥ Idle) then
       .fail "member-in-use-closed" [V.ofNat idx, V.ofNat v.id]
-    else .fail "load-not-conserved" [V.ofNat idx, V.ofNat v.id]
+    else .fail (loadClause late reqs v) [V.ofNat idx, V.ofNat v.id]
   | none =>
     match o.off.find? (fun v => !c04View reqs false v) with
     | some v =>
       if decide (relLoadNV v = (outCnt reqs v.id : Int)) && decide (v.load ≥ Idle) then
         .fail "close-discipline" [V.ofNat idx, V.ofNat v.id, V.ofNat v.closed]
-      else .fail "load-not-conserved" [V.ofNat idx, V.ofNat v.id]
+      else .fail (loadClause late reqs v) [V.ofNat idx, V.ofNat v.id]
     | none => .ok
 
-def specC04AGo (reqs : List (Nat × Bool)) (idx : Nat) : List (Op × Obs) → Verdict
+/-- the nodes of the dispatches that were entered as completed -/
+def lateIds (new : List (Nat × Bool)) : List Nat := (new.filter (·.2)).map (·.1)
+
+def specC04AGo (reqs : List (Nat × Bool)) (q : List (Option Bool)) (idx : Nat) : List (Op × Obs) → Verdict
   | [] => .ok
   | (op, o) :: rest =>
-    let reqs' := reqsPut reqs op ++ newReqs o.res
-    (c04AAt reqs' idx o).and (fun _ => specC04AGo reqs' (idx + 1) rest)
+    let q' := gateArrive q op o
+    let new := newReqsQ q' o
+    let reqs' := reqsPut reqs op ++ new
+    (c04AAt (lateIds new) reqs' idx o).and (fun _ => specC04AGo reqs' (gateNext q' o) (idx + 1) rest)
 
-def specC04A (_ : Cfg) (h : List (Op × Obs)) : Verdict := specC04AGo [] 0 h
+def specC04A (_ : Cfg) (h : List (Op × Obs)) : Verdict := specC04AGo [] [] 0 h
 
 /-! ### hypotheses -/
 
